@@ -324,3 +324,83 @@ func ShareSubtrees(doc interface{}, seed uint64) interface{} {
 	}
 	return doc
 }
+
+// OverlapSlices makes one array of the document a prefix view of another array's storage:
+// dst = src[:k] (k < len(src)), so that dst has spare capacity whose memory is the tail of
+// src — the shape `page := all[:2]` leaves behind in hand-built documents. Appending to dst
+// would overwrite src[k]. Values are unchanged for every reader.
+func OverlapSlices(doc interface{}, seed uint64) interface{} {
+	type slot struct {
+		path   []interface{}
+		parent interface{}
+		key    interface{}
+		val    []interface{}
+	}
+	var slots []slot
+	var walk func(v interface{}, path []interface{})
+	walk = func(v interface{}, path []interface{}) {
+		switch t := v.(type) {
+		case map[string]interface{}:
+			keys := make([]string, 0, len(t))
+			for k := range t {
+				keys = append(keys, k)
+			}
+			for i := 1; i < len(keys); i++ {
+				for j := i; j > 0 && keys[j] < keys[j-1]; j-- {
+					keys[j], keys[j-1] = keys[j-1], keys[j]
+				}
+			}
+			for _, k := range keys {
+				p := append(append([]interface{}{}, path...), k)
+				if a, ok := t[k].([]interface{}); ok {
+					slots = append(slots, slot{p, t, k, a})
+				}
+				walk(t[k], p)
+			}
+		case []interface{}:
+			for i := range t {
+				p := append(append([]interface{}{}, path...), i)
+				if a, ok := t[i].([]interface{}); ok {
+					slots = append(slots, slot{p, t, i, a})
+				}
+				walk(t[i], p)
+			}
+		}
+	}
+	walk(doc, nil)
+	next := func(n int) int {
+		seed = seed*6364136223846793005 + 1442695040888963407
+		return int((seed >> 33) % uint64(n))
+	}
+	if len(slots) < 2 {
+		return doc
+	}
+	for try := 0; try < 4; try++ {
+		s, d := slots[next(len(slots))], slots[next(len(slots))]
+		if len(s.val) < 2 || len(s.path) == 0 {
+			continue
+		}
+		related := true
+		n := len(s.path)
+		if len(d.path) < n {
+			n = len(d.path)
+		}
+		for i := 0; i < n; i++ {
+			if s.path[i] != d.path[i] {
+				related = false
+			}
+		}
+		if related {
+			continue
+		}
+		view := s.val[:1+next(len(s.val)-1)]
+		switch p := d.parent.(type) {
+		case map[string]interface{}:
+			p[d.key.(string)] = view
+		case []interface{}:
+			p[d.key.(int)] = view
+		}
+		return doc
+	}
+	return doc
+}
